@@ -319,4 +319,155 @@ theorem isoResample_refines (rows : List (List Rat)) (lens : List Rat) (d : Rat)
     rw [htr _ _ _ (by simp [hil])]
     simp only [setColBlock_xyz, hc3, hi, setCol_r _ _ _ _ _ (hil _), finish, Option.map, colsOf, List.map_cons, List.map_nil]
 
+/-! ### the smoother -/
+
+theorem foldl_congr_mem {α β : Type} (f g : β → α → β) : ∀ (l : List α) (b : β), (∀ b, ∀ a ∈ l, f b a = g b a) → l.foldl f b = l.foldl g b
+  | [], _, _ => rfl
+  | a :: t, b, h => by
+    simp only [List.foldl_cons, h b a List.mem_cons_self]
+    exact foldl_congr_mem f g t _ (fun b' a' ha' => h b' a' (List.mem_cons_of_mem _ ha'))
+
+/-- an entry of the full convolution with the kernel `np.ones(k)` is the model's window sum -/
+theorem convFull_ones (v : List Rat) (k i : Nat) (hk : 1 ≤ k) :
+    convFull v (List.replicate k (1 : Rat)) (i + (k - 1) / 2) = convSame v k i := by
+  unfold convFull convSame
+  apply foldl_congr_mem
+  intro acc j _
+  simp only [List.length_replicate]
+  have e : (default : Rat) = 0 := rfl
+  split_ifs with h1 h2 h2
+  · have : (List.replicate k (1 : Rat)).getD (i + (k - 1) / 2 - j) default = 1 := by
+      simp [List.getD_eq_getElem?_getD, h1.2]
+    rw [this, e, mul_one]
+  · exfalso; omega
+  · exfalso; omega
+  · rfl
+
+theorem convolveSame_ones (v : List Rat) (k : Nat) (hk : 1 ≤ k) :
+    convolveSame v (List.replicate k (1 : Rat)) = (List.range v.length).map fun i => convSame v k i := by
+  unfold convolveSame
+  cases v with
+  | nil => simp
+  | cons a t =>
+    have : (List.replicate k (1 : Rat)).isEmpty = false := by cases k with | zero => omega | succ m => rfl
+    simp only [List.isEmpty_cons, this, Bool.or_self, Bool.false_eq_true, if_false, List.length_replicate]
+    apply List.map_congr_left
+    intro i _
+    exact convFull_ones _ k i hk
+
+
+theorem foldl_cond_ge (p : Nat → Prop) [DecidablePred p] (f : Nat → Rat) (hf : ∀ a, 0 ≤ f a) :
+    ∀ (l : List Nat) (b : Rat), b ≤ l.foldl (fun acc a => if p a then acc + f a else acc) b
+  | [], b => le_refl b
+  | a :: t, b => by
+    simp only [List.foldl_cons]
+    refine le_trans ?_ (foldl_cond_ge p f hf t _)
+    split_ifs
+    · have := hf a; linarith
+    · exact le_refl b
+
+theorem foldl_cond_pos (p : Nat → Prop) [DecidablePred p] (f : Nat → Rat) (hf : ∀ a, 0 ≤ f a) (a0 : Nat) (hp : p a0) (h0 : 0 < f a0) :
+    ∀ (l : List Nat) (b : Rat), a0 ∈ l → b < l.foldl (fun acc a => if p a then acc + f a else acc) b
+  | [], _, h => by simp at h
+  | a :: t, b, h => by
+    simp only [List.foldl_cons]
+    rcases List.mem_cons.mp h with rfl | h'
+    · rw [if_pos hp]
+      exact lt_of_lt_of_le (by linarith) (foldl_cond_ge p f hf t _)
+    · refine lt_of_le_of_lt ?_ (foldl_cond_pos p f hf a0 hp h0 t _ h')
+      split_ifs
+      · have := hf a; linarith
+      · exact le_refl b
+
+/-- the window of every node contains the node itself: the divisor `c` of the smoother is positive -/
+theorem convSame_ones_pos (n k i : Nat) (hk : 1 ≤ k) (hi : i < n) : 0 < convSame (List.replicate n (1 : Rat)) k i := by
+  unfold convSame
+  simp only [List.length_replicate]
+  apply foldl_cond_pos (fun a => ((i : Int) + ((k - 1) / 2 : Nat)) - (k : Int) + 1 ≤ (a : Int) ∧ (a : Int) ≤ (i : Int) + ((k - 1) / 2 : Nat))
+    (fun a => (List.replicate n (1 : Rat)).getD a 0) _ i
+  · omega
+  · simp [List.getD_eq_getElem?_getD, hi]
+  · exact List.mem_range.mpr hi
+  · intro a
+    simp only [List.getD_eq_getElem?_getD, List.getElem?_replicate]
+    split_ifs <;> simp
+
+theorem divArr_pos (n : Nat) (A B : Nat → Rat) (hB : ∀ i < n, 0 < B i) :
+    divArr ((List.range n).map A) ((List.range n).map B) = some ((List.range n).map fun i => A i / B i) := by
+  simp only [divArr, List.length_map, if_true, List.zip_map']
+  rw [mapOpt_total _ (fun p => p.1 / p.2)]
+  · simp
+  · intro p hp
+    obtain ⟨i, hi, rfl⟩ := List.mem_map.mp hp
+    exact fdiv_eq _ _ (hB i (List.mem_range.mp hi))
+
+/-- `a[1:-1] = q[1:-1]` on arrays of equal length `n ≥ 2` -/
+theorem setSlice_inner (col q : List Rat) (n : Nat) (hn : 2 ≤ n) (hc : col.length = n) (hq : q.length = n) :
+    setSlice col (some (1 : Int)) (some (-1 : Int)) (slice q (some (1 : Int)) (some (-(1 : Int)))) =
+      some ((List.range n).map fun i => if i = 0 ∨ i + 1 = n then col.getD i 0 else q.getD i 0) := by
+  have hs : sliceBound n (1 : Int) = 1 := by simp [sliceBound]; omega
+  have he : sliceBound n (-1 : Int) = n - 1 := by simp [sliceBound]; omega
+  have hlen : ((q.take (n - 1)).drop 1).length = n - 1 - 1 := by simp [hq]
+  simp only [setSlice, slice, hc, hq, hs, he, broadcastTo, hlen, if_true, Option.map_some, show 1 ≤ n - 1 by omega]
+  congr 1
+  apply List.ext_getElem
+  · simp [hc]; omega
+  · intro i h1 h2
+    simp only [List.length_map, List.length_range] at h2
+    simp only [List.getElem_map, List.getElem_range, List.getD_eq_getElem?_getD]
+    rw [List.getElem?_eq_getElem (by omega), List.getElem?_eq_getElem (by omega)]
+    simp only [Option.getD_some, List.getElem_append, List.length_take, List.length_drop, List.length_append, hc, hq]
+    split_ifs <;> first | omega | (simp only [List.getElem_take, List.getElem_drop]; done) | (simp only [List.getElem_take, List.getElem_drop]; congr 1; omega)
+
+
+theorem getD_range_map (n i : Nat) (f : Nat → Rat) (hi : i < n) : ((List.range n).map f).getD i 0 = f i := by
+  simp [List.getD_eq_getElem?_getD, hi]
+
+/-- the divisor array `c` of the smoother -/
+def cvec (n k : Nat) : List Rat := convolveSame (List.replicate n (1 : Rat)) (List.replicate k (1 : Rat))
+
+theorem convSmooth_eq (col : List Rat) (n k : Nat) (hc : col.length = n) :
+    convSmooth col k = (List.range n).map fun i => if i = 0 ∨ i + 1 = n then col.getD i 0
+      else convSame col k i / convSame (List.replicate n (1 : Rat)) k i := by
+  subst hc
+  simp only [convSmooth, List.map_const']
+
+/-- one iteration of `for k in ["x", "y", "z"]` -/
+theorem smooth_step (nd : Dict String (List Rat)) (key : String) (col : List Rat) (n k : Nat) (hk : 1 ≤ k) (hn : 2 ≤ n)
+    (hcol : col.length = n) (hget : Dict.get? nd key = some col) (nI : Int) (k0 : String) (vv ss : List Rat) :
+    conv_smooth.for1 ratFld key ⟨nd, nI, List.replicate k 1, cvec n k, k0, vv, ss⟩ =
+      .next ⟨Dict.set nd key (convSmooth col k), nI, List.replicate k 1, cvec n k, key, col, convolveSame col (List.replicate k 1)⟩ := by
+  have hdiv : divArr (convolveSame col (List.replicate k 1)) (cvec n k) =
+      some ((List.range n).map fun i => convSame col k i / convSame (List.replicate n (1 : Rat)) k i) := by
+    rw [cvec, convolveSame_ones _ k hk, convolveSame_ones _ k hk, hcol, List.length_replicate]
+    exact divArr_pos n _ _ (fun i hi => convSame_ones_pos n k i hk hi)
+  simp only [conv_smooth.for1, seq, Py.bind, hget, hdiv]
+  rw [setSlice_inner col _ n hn hcol (by simp)]
+  simp only [convSmooth_eq col n k hcol]
+  congr 3
+  apply List.map_congr_left
+  intro i hi
+  rw [getD_range_map n i _ (List.mem_range.mp hi)]
+
+/-- **`BranchConvSmoother.__call__` as translated from the source equals the model `Resample.convSmooth` on the three coordinate columns**:
+for every branch of `n ≥ 2` nodes given by the dictionary of its columns (`x`, `y`, `z` of length `n`; any further columns) and every window
+`np.ones(k)`, `k ≥ 1`, the generated function returns — without raising — the dictionary in which `x`, `y`, `z` are replaced by the model's
+smoothed columns and nothing else is changed. -/
+theorem convSmooth_refines (nd : Dict String (List Rat)) (xs ys zs : List Rat) (n k : Nat) (hk : 1 ≤ k) (hn : 2 ≤ n)
+    (hx : Dict.get? nd "x" = some xs) (hy : Dict.get? nd "y" = some ys) (hz : Dict.get? nd "z" = some zs)
+    (hxl : xs.length = n) (hyl : ys.length = n) (hzl : zs.length = n) :
+    conv_smooth ratFld nd (n : Int) (List.replicate k 1) =
+      some (Dict.set (Dict.set (Dict.set nd "x" (convSmooth xs k)) "y" (convSmooth ys k)) "z" (convSmooth zs k), ()) := by
+  have hy' : Dict.get? (Dict.set nd "x" (convSmooth xs k)) "y" = some ys := by rw [Dict.get?_set, if_neg (by decide), hy]
+  have hz' : Dict.get? (Dict.set (Dict.set nd "x" (convSmooth xs k)) "y" (convSmooth ys k)) "z" = some zs := by
+    rw [Dict.get?_set, if_neg (by decide), Dict.get?_set, if_neg (by decide), hz]
+  simp only [conv_smooth, conv_smooth.body, seq, Py.bind, full_nat, forEach]
+  rw [show convolveSame (List.replicate n (1 : Rat)) (List.replicate k 1) = cvec n k from rfl]
+  rw [smooth_step nd "x" xs n k hk hn hxl hx]
+  simp only []
+  rw [smooth_step _ "y" ys n k hk hn hyl hy']
+  simp only []
+  rw [smooth_step _ "z" zs n k hk hn hzl hz']
+  simp [finish]
+
 end RefineResample
